@@ -139,6 +139,83 @@ pub fn c20(rep: &mut Report, n: usize, seed: u64) {
                     }
                 }
             }
+            // the provided methods (next_match / next_reject and their _back forms, which an implementation may
+            // override) mixed with next() / next_back(): each must behave as the loop over next() / next_back() that
+            // the trait defines, i.e. as a walk over the ONE list of forward steps from its two ends
+            for _ in 0..4 {
+                let ops: String = (0..24).map(|_| *rng.pick(&['n', 'b', 'm', 'r', 'M', 'R', 'm', 'M'])).collect();
+                let mut s = (&re).into_searcher(&hay);
+                let (mut i, mut j) = (0usize, forward.len());
+                let mut got = vec![];
+                let mut want = vec![];
+                for ch in ops.chars() {
+                    let g = match ch {
+                        'n' => step_tok(&s.next()),
+                        'b' => step_tok(&s.next_back()),
+                        'm' => format!("{:?}", s.next_match()),
+                        'r' => format!("{:?}", s.next_reject()),
+                        'M' => format!("{:?}", s.next_match_back()),
+                        _ => format!("{:?}", s.next_reject_back()),
+                    };
+                    let is_m = |st: &SearchStep| matches!(st, SearchStep::Match(..));
+                    let pair = |st: &SearchStep| match st {
+                        SearchStep::Match(a, b) | SearchStep::Reject(a, b) => Some((*a, *b)),
+                        SearchStep::Done => None,
+                    };
+                    let w = match ch {
+                        'n' => {
+                            if i < j {
+                                i += 1;
+                                step_tok(&forward[i - 1])
+                            } else {
+                                "D".into()
+                            }
+                        }
+                        'b' => {
+                            if i < j {
+                                j -= 1;
+                                step_tok(&forward[j])
+                            } else {
+                                "D".into()
+                            }
+                        }
+                        'm' | 'r' => {
+                            let mut out = None;
+                            while i < j {
+                                i += 1;
+                                if is_m(&forward[i - 1]) == (ch == 'm') {
+                                    out = pair(&forward[i - 1]);
+                                    break;
+                                }
+                            }
+                            format!("{:?}", out)
+                        }
+                        _ => {
+                            let mut out = None;
+                            while i < j {
+                                j -= 1;
+                                if is_m(&forward[j]) == (ch == 'M') {
+                                    out = pair(&forward[j]);
+                                    break;
+                                }
+                            }
+                            format!("{:?}", out)
+                        }
+                    };
+                    got.push(g);
+                    want.push(w);
+                }
+                done += 1;
+                rep.count("provided-method-interleaving");
+                if got != want {
+                    rep.violation(
+                        "impl-vs-spec:C20",
+                        format!("ops {} (n next, b next_back, m next_match, r next_reject, M next_match_back, R next_reject_back) returned {} but the forward step list {} walked from both ends gives {}",
+                            ops, got.join(" "), forward.iter().map(step_tok).collect::<Vec<_>>().join(" "), want.join(" ")),
+                        label.clone(),
+                    );
+                }
+            }
             // the std string API built on the searcher
             let first = ms.first().cloned();
             let last = ms.last().cloned();
